@@ -181,6 +181,66 @@ def c02 (v : StepView) : Verdict :=
 
 /-! ### C04 -/
 
+/-- replay the implementation's syscalls on the kernel model from the pre-state table;
+    returns the index and error of the first failing one -/
+def replaySys (mnts : List Kernel.KMnt) (sys : List Sys) : Option (Nat × Sys × Kernel.KErr) × Kernel.KTable :=
+  let t0 : Kernel.KTable := { mnts := mnts, nextId := (mnts.foldl (fun acc x => max acc x.id) 99) + 1 }
+  let r := sys.foldl (fun (acc : Option (Nat × Sys × Kernel.KErr) × Kernel.KTable × Nat) s =>
+    match acc.1 with
+    | some _ => acc
+    | none =>
+      let res := if s.kind == "umount" then Kernel.kumount acc.2.1 s.tgt
+                 else Kernel.kmount acc.2.1 s.src s.tgt s.fstype s.flags s.data
+      match res with
+      | .ok t' => (none, t', acc.2.2 + 1)
+      | .error e => (some (acc.2.2, s, e), acc.2.1, acc.2.2 + 1)) (none, t0, 0)
+  (r.1, r.2.1)
+
+/-- the entry can be reached by its path: the lookup of its mountpoint ends on it, or on
+    a mount stacked (directly, possibly several deep) on its root -/
+def visibleIn (mnts : List Kernel.KMnt) (x : Kernel.KMnt) : Bool :=
+  let rec climb : Nat → Kernel.KMnt → Bool
+    | 0, _ => false
+    | fuel + 1, c =>
+      if c.id == x.id then true
+      else if c.mp != x.mp then false
+      else match mnts.find? (fun p => p.id == c.parent && p.id != c.id) with
+        | some p => climb fuel p
+        | none => false
+  match Kernel.resolve mnts x.mp with
+  | none => false
+  | some r => climb mnts.length r
+
+/-- region of the known finding `umount-order-hidden-submount`: the table has a mount at or
+    below the build root `bd` that is hidden (covered by a mount stacked later on one of its
+    ancestors), and yet an order exists in which every unmount call succeeds (latest mount
+    first) — the order "deepest path first" of the code meets the hidden mount first -/
+def hiddenSubmountRegion (t : Kernel.KTable) (bd : Bytes) : Bool :=
+  let region := t.mnts.filter fun x => atOrBelow bd x.mp
+  region.any (fun x => !visibleIn t.mnts x) &&
+  (region.reverse.foldl (fun (acc : Option Kernel.KTable) x =>
+    match acc with
+    | none => none
+    | some t' =>
+      match Kernel.kumount t' x.mp with
+      | .ok t'' => some t''
+      | .error _ => none) (some t)).isSome
+
+/-- a `umount` step that was stopped by the kernel inside that region: the LAST call issued
+    is refused with EINVAL, on the mountpoint of an entry of the table, the step failed; gives
+    the layer (among `scope`) whose build root the call lies in -/
+def hiddenAbort (v : StepView) (scope : List Bytes) : Option Bytes :=
+  let sys := sysOf v
+  match replaySys v.pre.mnts sys with
+  | (some (k, s, e), tf) =>
+    match scope.find? fun n => atOrBelow (buildDir v.pre n) s.tgt with
+    | none => none
+    | some n =>
+      if e == .einval && k + 1 == sys.length && clsOf v != "ok" && tf.mnts.any (·.mp == s.tgt)
+          && hiddenSubmountRegion tf (buildDir v.pre n) then some n
+      else none
+  | _ => none
+
 def c04 (v : StepView) : Verdict :=
   if !plain v then fine [] else
   let c := cmdOf v.step
@@ -207,9 +267,15 @@ def c04 (v : StepView) : Verdict :=
                               else unmountBlocked v.pre v.users n
     let blocked := targets.filter isBlocked
     let idleMounted := targets.filter fun n => !isBlocked n && mountedAtOrBelow v.pre n
+    -- the known finding umount-order-hidden-submount (judged by C03) stops the command at
+    -- layer f: layers the loop had not reached yet are left alone as a consequence; a layer
+    -- derived from f had to be visited before f and is not excused
+    let excused := fun n => match hiddenAbort v targets with
+      | some f => n != f && !isAncestor ls f n
+      | none => false
     if blocked.any touched then bad "umount touched a layer that is in use or overlain"
     else if !blocked.isEmpty && clsOf v == "ok" then bad "umount reported success although a layer was blocked"
-    else if (a0.isEmpty || blocked.isEmpty) && idleMounted.any (fun n => !touched n) && (targets.all fun n =>
+    else if (a0.isEmpty || blocked.isEmpty) && idleMounted.any (fun n => !touched n && !excused n) && (targets.all fun n =>
         ((findD ls n).map (fun l => l.file.nmsgs == 0)).getD true) then
       bad "umount refused a layer although nothing works in its build, upper or work directory"
     else fine [(if blocked.isEmpty then "c04:umount-free" else "c04:umount-blocked")]
@@ -255,21 +321,6 @@ def c09 (v : StepView) : Verdict :=
 
 /-! ### C03 -/
 
-/-- replay the implementation's syscalls on the kernel model from the pre-state table;
-    returns the index and error of the first failing one -/
-def replaySys (mnts : List Kernel.KMnt) (sys : List Sys) : Option (Nat × Sys × Kernel.KErr) × Kernel.KTable :=
-  let t0 : Kernel.KTable := { mnts := mnts, nextId := (mnts.foldl (fun acc x => max acc x.id) 99) + 1 }
-  let r := sys.foldl (fun (acc : Option (Nat × Sys × Kernel.KErr) × Kernel.KTable × Nat) s =>
-    match acc.1 with
-    | some _ => acc
-    | none =>
-      let res := if s.kind == "umount" then Kernel.kumount acc.2.1 s.tgt
-                 else Kernel.kmount acc.2.1 s.src s.tgt s.fstype s.flags s.data
-      match res with
-      | .ok t' => (none, t', acc.2.2 + 1)
-      | .error e => (some (acc.2.2, s, e), acc.2.1, acc.2.2 + 1)) (none, t0, 0)
-  (r.1, r.2.1)
-
 def c03 (v : StepView) : Verdict :=
   if cmdOf v.step != "umount" || !plain v then fine [] else
   let ls := diskLayers v.pre
@@ -291,6 +342,9 @@ def c03 (v : StepView) : Verdict :=
   match (replaySys v.pre.mnts sys).1 with
   | some (_, s, e) =>
     if e == .ebusy then bad ("unmount of " ++ showB s.tgt ++ " while something is still mounted beneath it")
+    else if (hiddenAbort v scope).isSome then
+      known "umount-order-hidden-submount" ("umount of an idle layer fails at " ++ showB s.tgt ++
+        ": mountpoints are unmounted in descending path order, which meets a submount hidden below a mount stacked on its ancestor; latest-mount-first would succeed")
     else bad ("unmount of " ++ showB s.tgt ++ " which is not a mountpoint")
   | none =>
     -- derived layers before the layers they sit on
